@@ -52,6 +52,15 @@ def gen_deck(rng):
         d = U.build_universe_deck(rng, depth=rng.randint(1, 3), macro_p=0.15, tr_p=0.1, fill_tr_p=0.6, trcl_p=0.4)
     else:
         d = U.build_universe_deck(rng, depth=2, macro_p=0.0, tr_p=0.0, fill_tr_p=0.3, trcl_p=0.3, lattice_p=0.6)
+    if rng.random() < 0.12:
+        # negative universe numbers (u=-n: "not truncated by the filled cell"): whatever the converter makes of them,
+        # it must make the same of them every time
+        us = sorted({c.u for c in d.cells if c.u and not c.lat})
+        if us:
+            u = rng.choice(us)
+            for c in d.cells:
+                if c.u == u and 'raw' not in c.hints:
+                    c.hints['neg_u'] = True
     # several densities per material
     dens = ['-2.7', '-2.75', '-1.0', '0.05', '-7.8', '1.2-2', '-3.3', '0.07']
     for c in d.cells:
